@@ -554,6 +554,9 @@ type Memory struct {
 	syncMx sync.RWMutex
 	// writes tracks forked DB writes, so Sync can wait for them.
 	writes sync.WaitGroup
+	// lastWrite is closed when the latest forked write is done (writes are
+	// forked, but have to hit the DB in the order they were queued).
+	lastWrite chan struct{}
 	// garbage collector lock (read: query, write: GC)
 	gcMx sync.RWMutex
 	// TODO use Context
@@ -1027,42 +1030,58 @@ func (m *Memory) writeDb(rLocked bool) {
 
 	// fork
 	m.writes.Add(1)
-	go m.savePool.Go(func() error {
-		defer m.writes.Done()
-		if m.disposed.Load() {
-			return nil
+	prevWrite, thisWrite := m.lastWrite, make(chan struct{})
+	m.lastWrite = thisWrite
+	go func() {
+		// wait outside of the pool (its slots may all be taken by later writes)
+		if prevWrite != nil {
+			<-prevWrite
 		}
-		if rLocked {
-			defer m.syncMx.RUnlock()
-		}
+		m.savePool.Go(func() error {
+			defer m.writes.Done()
+			defer close(thisWrite)
+			return m.saveBatch(rLocked, machRec, times, ticks, l)
+		})
+	}()
+}
 
-		// sync mach record TODO skip saving states
-		if err := m.Db.Save(machRec).Error; err != nil {
-			m.onErr(fmt.Errorf("failed to save: %w", err))
-			return err
-		}
-		// TODO optimize: parallel save?
-		// times
-		dbTimes := gorm.G[Time](m.Db)
-		err := dbTimes.CreateInBatches(m.Mach.Context(), &times, 100)
-		if err != nil {
-			m.onErr(err)
-			return err
-		}
-
-		// ticks
-		dbTicks := gorm.G[Tick](m.Db)
-		err = dbTicks.CreateInBatches(m.Mach.Context(), &ticks, 100)
-		if err != nil {
-			m.onErr(err)
-			return err
-		}
-
-		// stats
-		m.Saved.Add(uint64(l))
-
+// saveBatch is the forked part of writeDb.
+func (m *Memory) saveBatch(
+	rLocked bool, machRec Machine, times []Time, ticks []Tick, l int,
+) error {
+	if m.disposed.Load() {
 		return nil
-	})
+	}
+	if rLocked {
+		defer m.syncMx.RUnlock()
+	}
+
+	// sync mach record TODO skip saving states
+	if err := m.Db.Save(machRec).Error; err != nil {
+		m.onErr(fmt.Errorf("failed to save: %w", err))
+		return err
+	}
+	// TODO optimize: parallel save?
+	// times
+	dbTimes := gorm.G[Time](m.Db)
+	err := dbTimes.CreateInBatches(m.Mach.Context(), &times, 100)
+	if err != nil {
+		m.onErr(err)
+		return err
+	}
+
+	// ticks
+	dbTicks := gorm.G[Tick](m.Db)
+	err = dbTicks.CreateInBatches(m.Mach.Context(), &ticks, 100)
+	if err != nil {
+		m.onErr(err)
+		return err
+	}
+
+	// stats
+	m.Saved.Add(uint64(l))
+
+	return nil
 }
 
 func (m *Memory) log(msg string, args ...any) {
